@@ -1,5 +1,6 @@
 import OVM.Status.Lemmas
 import OVM.Status.DeadSetManifold
+import OVM.Status.DeadSetLoops
 /-
   C04 (status part) — `StatusAttrib::garbage_collection`: status-marked deletion, the
   `_preserveManifoldness` pass, remapping of the tracked handles.
@@ -433,13 +434,9 @@ theorem mark_loops_flag_exactly_the_dead_set (k : Kernel) (hi : Global.GInv k) (
     to the loops is the start mesh minus the dead set (nothing renumbered), satisfies the invariant, is in deferred mode
     with all three incidence kinds enabled; the loops keep the invariant (every deletion they make is of a live entity);
     the result of `statusGC` (either overload) has the logical mesh of the state the loops leave.
-    MISSING: `LogMinus kb (manifoldVerts (manifoldEdges (manifoldFaces kb))) id M` with `M` = the live faces bounding no
-    live cell, then the live edges bounding no remaining face, then the live vertices bounding no remaining edge, i.e.
-    `deadRem k mk true` in place of `deadRem k mk false`.  Plan: each loop is a `sweep` whose condition is, by `CacheInv`
-    of the current state (`cellOf = sCellOf`, `hfsOf ~ sHfsOfHe`, `outOf ~ sOut`), "live ∧ no live entity one level up
-    contains it"; deleting such an entity flags only itself (`flagged_delete*` with empty incidence lists), so the
-    condition of the other slots does not change and `sweep_eq_runDef` + `runDef_logMinus` apply as for the mark loops.
-    Until then this clause is covered per call by the judge's oracle (`Spec.check` with `man = true`). -/
+    The loops themselves are `manifold_loops_erase_exactly_the_unbounding` below, and the full statement is
+    `status_gc_removes_exactly_the_dead_set_manifold`; this theorem is kept as the frame both are built on (`_partial`
+    only in that it says nothing about what the loops remove). -/
 theorem status_gc_manifold_partial (k : Kernel) (hi : Global.GInv k) (hfr : Fresh k) (t : Tracked) :
     ∃ kb, markPhase k true = manifoldVerts (manifoldEdges (manifoldFaces kb)) ∧
       LogMinus k kb Ren.id (deadRem k (marksOf k) false) ∧ Global.GInv kb ∧ kb.deferred = true ∧
@@ -481,5 +478,72 @@ example : Global.GInv twoTetSt ∧ Fresh twoTetSt ∧
   refine ⟨ginv_twoTetSt, fresh_twoTetSt,
     (status_gc_removes_exactly_the_dead_set twoTetSt ginv_twoTetSt fresh_twoTetSt {}).2, ?_, ?_, ?_, ?_, ?_, ?_, ?_, ?_, ?_,
     ⟨kb, e, g⟩⟩ <;> decide +kernel
+
+end OVM.Props.C04Status
+
+/-! ======================= appended by builder (the manifoldness loops) ======================= -/
+namespace OVM.Props.C04Status
+open OVM OVM.Kernel OVM.Status
+open OVM.Kernel.Logical (LogMinus LogIso Ren Rem)
+
+/-- **the three `_preserveManifoldness` loops** (impl.hh:83-97), from any deferred-mode state `kb` satisfying the
+    reachability invariant with all three incidence kinds enabled: each loop is a deferred run of deletion requests for
+    the slots whose loop condition holds at the START of the loop (`reqsMF/ME/MV`: the condition of a slot is not changed
+    by the deletions of the loop), it keeps the invariant, and it removes — renumbering nothing — exactly
+      the live faces neither of whose halffaces has an incident cell  = live faces no live cell contains (`IsoF`),
+      the live edges of valence 0                                     = live edges no live face contains (`IsoE`),
+      the live vertices of valence 0                                  = live vertices no live edge ends in (`IsoV`),
+    the cache reads being exact by the cache invariant of every intermediate state. -/
+theorem manifold_loops_erase_exactly_the_unbounding (kb : Kernel) (hi : Global.GInv kb) (hd : kb.deferred = true)
+    (hbu : BUon kb) :
+    (manifoldFaces kb = Logical.runDef kb (reqsMF kb) ∧ LogMinus kb (manifoldFaces kb) Ren.id (MF kb) ∧
+      ∀ f, f < kb.nF → (condF kb f = true ↔ IsoF kb f)) ∧
+    (manifoldEdges kb = Logical.runDef kb (reqsME kb) ∧ LogMinus kb (manifoldEdges kb) Ren.id (ME kb) ∧
+      ∀ e, e < kb.nE → (condE kb e = true ↔ IsoE kb e)) ∧
+    (manifoldVerts kb = Logical.runDef kb (reqsMV kb) ∧ LogMinus kb (manifoldVerts kb) Ren.id (MV kb) ∧
+      ∀ v, v < kb.nV → (condV kb v = true ↔ IsoV kb v)) :=
+  ⟨⟨(manifoldFaces_run hi hd hbu).1, manifoldFaces_logMinus hi hd hbu, fun _ h => condF_iff hi.wf hbu.2.2 h⟩,
+   ⟨(manifoldEdges_run hi hd hbu).1, manifoldEdges_logMinus hi hd hbu, fun _ h => condE_iff hi.wf hbu.2.1 h⟩,
+   ⟨(manifoldVerts_run hi hd hbu).1, manifoldVerts_logMinus hi hd hbu, fun _ h => condV_iff hi.wf hbu.1 h⟩⟩
+
+/-- **`StatusAttrib::garbage_collection` with `_preserveManifoldness` erases exactly the specified dead set**, both
+    overloads, from any deletion mode, either deletion style, any bottom-up configuration, with or without deletions
+    already pending: the logical mesh of the result is the logical mesh of the start state minus
+    `deadRem k (marksOf k) true` — the dead entities (deleted, or status-marked, or built from a dead entity) plus every
+    face bounding no kept cell, every edge bounding no kept face, every vertex bounding no kept edge (ALL such entities,
+    whether or not they were next to something deleted) —, read through a renumbering `ρ` that carries every definition
+    and every property column.  Together with `status_gc_removes_exactly_the_dead_set` (flag off) this is the clause
+    "the erased slots are exactly the specified dead set" for every value of the flag. -/
+theorem status_gc_removes_exactly_the_dead_set_manifold (k : Kernel) (hi : Global.GInv k) (hfr : Fresh k) (t : Tracked) :
+    (∃ ρ, LogMinus k (statusGC k true t).k ρ (deadRem k (marksOf k) true)) ∧
+    (∃ ρ, LogMinus k (statusGCPlain k true) ρ (deadRem k (marksOf k) true)) :=
+  ⟨statusGC_dead_man hi hfr t, statusGC_dead_man hi hfr {}⟩
+
+/-- non-vacuity: two tetrahedra sharing a face, the second cell marked, option on: the hypotheses hold, the theorem
+    applies, the dead set is the cell, its three own faces, three own edges and the vertex 4, and the model's result is
+    the first tetrahedron (evaluations: TEST next to the theorem) -/
+example : Global.GInv twoTetSt ∧ Fresh twoTetSt ∧
+    (∃ ρ, LogMinus twoTetSt (statusGCPlain twoTetSt true) ρ (deadRem twoTetSt (marksOf twoTetSt) true)) ∧
+    (List.range 2).map (Spec.keepC twoTetSt (marksOf twoTetSt)) = [true, false] ∧
+    (List.range 7).map (Spec.keepF twoTetSt (marksOf twoTetSt) true) = [true, true, true, true, false, false, false] ∧
+    (List.range 9).map (Spec.keepE twoTetSt (marksOf twoTetSt) true) =
+      [true, true, true, true, true, true, false, false, false] ∧
+    (List.range 5).map (Spec.keepV twoTetSt (marksOf twoTetSt) true) = [true, true, true, true, false] ∧
+    (statusGCPlain twoTetSt true).cells = [[1, 3, 5, 7]] ∧
+    (statusGCPlain twoTetSt true).faces = [[0, 2, 4], [6, 8, 1], [9, 10, 3], [5, 11, 7]] ∧
+    (statusGCPlain twoTetSt true).edges = [(0, 1), (1, 2), (2, 0), (0, 3), (3, 1), (3, 2)] ∧
+    (statusGCPlain twoTetSt true).nV = 4 := by
+  refine ⟨ginv_twoTetSt, fresh_twoTetSt,
+    (status_gc_removes_exactly_the_dead_set_manifold twoTetSt ginv_twoTetSt fresh_twoTetSt {}).2, ?_, ?_, ?_, ?_, ?_, ?_,
+    ?_, ?_⟩ <;> decide +kernel
+
+/-- non-vacuity of the "all such entities" reading: in the single tetrahedron with face 2 marked and the option on, the
+    cell dies with the face, so NO face bounds a kept cell any more: everything goes (specification and model agree) -/
+example : (∃ ρ, LogMinus tetSt (statusGCPlain tetSt true) ρ (deadRem tetSt (marksOf tetSt) true)) ∧
+    (List.range 4).map (Spec.keepF tetSt (marksOf tetSt) true) = [false, false, false, false] ∧
+    (List.range 4).map (Spec.keepV tetSt (marksOf tetSt) true) = [false, false, false, false] ∧
+    (statusGCPlain tetSt true).faces = [] ∧ (statusGCPlain tetSt true).edges = [] ∧ (statusGCPlain tetSt true).nV = 0 := by
+  refine ⟨(status_gc_removes_exactly_the_dead_set_manifold tetSt ginv_tetSt fresh_tetSt {}).2, ?_, ?_, ?_, ?_, ?_⟩ <;>
+    decide +kernel
 
 end OVM.Props.C04Status
